@@ -11,3 +11,16 @@ open Cascette.Props.C01
 #print axioms empty_encrypted_decodes
 #print axioms blte_parse_serialize
 #print axioms chunking_covers_payload
+#print axioms compress_roundtrip
+#print axioms compress_table_truthful
+#print axioms compress_is_builder_program
+#print axioms compress_zero_chunk_size_rejected
+#print axioms single_chunk_roundtrip
+#print axioms multi_chunk_roundtrip
+#print axioms multi_chunk_extended_roundtrip
+#print axioms blte_decompress_without_keys
+#print axioms frame_mode_rejected_by_encoder
+#print axioms frame_chunk_rejected_by_decoder
+#print axioms frame_container_rejected
+#print axioms nested_mode_byte_rejected
+#print axioms nested_container_is_content
